@@ -2309,11 +2309,11 @@ impl SubRule {
                     m = false;
                     break;
                 }
+                // NOTE: `input_match_item` moves `state_index` on itself when it matches
                 if !self.input_match_item(captures, pos, state_index, word, states)? {
                     m = false;
                     break;
                 }
-                *state_index += 1;
             }
             if m {
                 return Ok(true)
